@@ -48,7 +48,8 @@ func TestVerif_C06(t *testing.T) {
 			seen[sig] = true
 			var stacks []c06Overlap
 			for _, o := range obs.Overlaps {
-				if o.Actor == f.Actor && len(stacks) < 2 {
+				twice := len(o.Holder) > 16 && o.Holder[:16] == "poststop-number-"
+				if o.Actor == f.Actor && len(stacks) < 2 && twice == (f.Kind == "poststop-twice") {
 					stacks = append(stacks, o)
 				}
 			}
